@@ -391,6 +391,10 @@ func runC05(c *h.Ctx) {
 	for i := 0; i < n; i++ {
 		ec := eg.Next()
 		doc := ec.DocValue()
+		if i%2 == 1 {
+			// arrays cut out of one backing array, with spare capacity
+			doc = h.SpareCap(doc)
+		}
 		opts := ec.Opts()
 		subvals := map[string]bool{}
 		subValueSet(doc, subvals)
@@ -447,7 +451,7 @@ func runC05(c *h.Ctx) {
 		}
 	}
 	// (c) deep and long documents (own journal entries: a fatal stack overflow kills the worker)
-	depths := []int{2000}
+	depths := []int{2000, 10050}
 	if c.Thorough() {
 		depths = append(depths, 20000)
 	}
